@@ -241,6 +241,105 @@ class Gen:
         return PRELUDE + work + 'fn main() -> int {\n' + '\n'.join(body) + '\n    return 0\n}\n'
 
 
+# ------------------------------------------------------------------------------------------------ bytecode generator
+class AsmGen:
+    """Random NanoISA assembly (stack-consistent, mostly well-typed) using opcodes and operand patterns the compiler never
+    emits: STRUCT_SET, STRUCT_NEW, ROT3/SWAP/DUP over references, an array pushed into itself, stores over the popped slot,
+    CLOSURE_CALL / CALL_INDIRECT of closures with captures, LOAD/STORE_UPVALUE, nested calls."""
+    def __init__(self, rng, leaky):
+        self.r = rng; self.leaky = leaky; self.feat = collections.Counter()
+
+    def body(self, nloc, n_ops, can_call):
+        r = self.r
+        st = []                     # abstract operand stack: 'i' int, 's' str, 'a' arr, ('S', n) struct, ('T', n) tuple, ('U', n) union, 'c' closure, '?' unknown
+        loc = ['v'] * nloc
+        out = []
+        def emit(x): out.append('  ' + x)
+        def push_any():
+            k = r.randrange(7)
+            if k == 0: emit('PUSH_I64 %d' % r.randrange(4)); st.append('i')
+            elif k == 1: emit('PUSH_STR %d' % r.randrange(4)); st.append('s')
+            elif k == 2: emit('ARR_NEW 7'); st.append('a')
+            elif k == 3 and any(t != 'v' for t in loc):
+                i = r.choice([j for j, t in enumerate(loc) if t != 'v']); emit('LOAD_LOCAL %d' % i); st.append(loc[i])
+            elif k == 4: emit('LOAD_GLOBAL %d' % r.randrange(3)); st.append('?')
+            elif k == 5 and st: emit('DUP'); st.append(st[-1])
+            else: emit('PUSH_STR %d' % r.randrange(4)); st.append('s')
+        for _ in range(n_ops):
+            k = r.randrange(100)
+            top = st[-1] if st else None
+            if k < 22 or len(st) < 1:
+                push_any()
+            elif k < 30:
+                i = r.randrange(nloc); emit('STORE_LOCAL %d' % i); loc[i] = st.pop(); self.feat['store'] += 1
+            elif k < 34:
+                emit('STORE_GLOBAL %d' % r.randrange(3)); st.pop()
+            elif k < 40:
+                emit('POP'); st.pop()
+            elif k < 45 and len(st) >= 2:
+                emit('SWAP'); st[-1], st[-2] = st[-2], st[-1]; self.feat['swap'] += 1
+            elif k < 49 and len(st) >= 3:
+                emit('ROT3'); a = st.pop(); b = st.pop(); c = st.pop(); st += [a, c, b]; self.feat['rot3'] += 1
+            elif k < 56 and len(st) >= 2 and st[-2] == 'a':
+                emit('ARR_PUSH'); st.pop(); self.feat['arr_push'] += 1
+            elif k < 59 and top == 'a':
+                emit('DUP'); emit('ARR_PUSH'); self.feat['self_push'] += 1           # array pushed into itself: a cycle
+            elif k < 63 and top == 'a':
+                emit('ARR_POP'); st.pop(); st += ['?', 'a']; self.feat['arr_pop'] += 1
+            elif k < 68 and top == 'a':
+                emit('PUSH_I64 %d' % r.randrange(3)); emit('ARR_GET'); st.pop(); st.append('?'); self.feat['arr_get'] += 1
+            elif k < 72 and len(st) >= 2 and st[-2] == 'a':
+                v = st.pop()
+                if self.leaky or True:
+                    # ARR_SET wants arr idx v: rebuild the order with the value on top
+                    emit('PUSH_I64 %d' % r.randrange(2)); emit('SWAP'); emit('ARR_SET' if self.leaky else 'POP')
+                    if not self.leaky: emit('POP'); st.pop()
+                self.feat['arr_set'] += 1
+            elif k < 74 and top == 'a':
+                emit('PUSH_I64 0'); emit('PUSH_I64 %d' % r.randrange(3)); emit('ARR_SLICE'); self.feat['slice'] += 1
+            elif k < 76 and top == 'a' and self.leaky:
+                emit('PUSH_I64 0'); emit('ARR_REMOVE'); self.feat['remove'] += 1
+            elif k < 82:
+                n = r.randrange(0, min(3, len(st)) + 1)
+                kind = r.choice(['S', 'T', 'U', 'L', 'C'])
+                for _ in range(n): st.pop()
+                if kind == 'S': emit('STRUCT_LITERAL 0 %d' % n); st.append(('S', n))
+                elif kind == 'T': emit('TUPLE_NEW %d' % n); st.append(('T', n))
+                elif kind == 'U': emit('UNION_CONSTRUCT 0 1 %d' % n); st.append(('U', n))
+                elif kind == 'L': emit('ARR_LITERAL 7 %d' % n); st.append('a')
+                else: emit('CLOSURE_NEW 1 %d' % n); st.append(('c', n))
+                self.feat['construct:' + kind] += 1
+            elif k < 87 and isinstance(top, tuple) and top[0] in 'STU' and top[1] > 0:
+                j = r.randrange(top[1]); st.pop(); st.append('?')
+                emit({'S': 'STRUCT_GET', 'T': 'TUPLE_GET', 'U': 'UNION_FIELD'}[top[0]] + ' %d' % j); self.feat['field_get'] += 1
+            elif k < 91 and len(st) >= 2 and isinstance(st[-2], tuple) and st[-2][0] == 'S' and st[-2][1] > 0:
+                j = r.randrange(st[-2][1]); st.pop(); emit('STRUCT_SET %d' % j); self.feat['struct_set'] += 1
+            elif k < 94 and len(st) >= 2 and st[-1] == 's' and st[-2] == 's':
+                emit(r.choice(['STR_CONCAT', 'ADD', 'EQ', 'STR_EQ'])); st.pop(); st.pop(); st.append('s'); st[-1] = '?'
+            elif k < 97 and can_call and isinstance(top, tuple) and top[0] == 'c' and self.leaky:
+                # call the closure (function 1: arity 1): argument below the closure
+                emit('PUSH_I64 1'); emit('SWAP'); emit(r.choice(['CALL_INDIRECT', 'CLOSURE_CALL'])); st.pop(); st.append('?')
+                self.feat['closure_call'] += 1
+            elif k < 99 and can_call:
+                emit('PUSH_STR %d' % r.randrange(4)); emit('CALL 2'); st.append('?'); self.feat['call'] += 1
+            else:
+                push_any()
+        return out, st
+
+    def program(self):
+        r = self.r
+        nloc = r.randrange(2, 6)
+        main, st = self.body(nloc, r.randrange(10, 60), True)
+        f1, _ = self.body(3, r.randrange(0, 8), False)
+        f2, _ = self.body(2, r.randrange(0, 8), False)
+        t = ['.string "k0"', '.string "k1"', '.string ""', '.string "k0k1"', '.entry 0', '.function main 0 %d 0' % nloc] + main
+        t += ['  PUSH_I64 0', '  RET', '.end']
+        # function 1: arity 1, reads / writes its first capture when called through a closure
+        t += ['.function clo 1 3 1', '  LOAD_UPVALUE 0 0', '  STORE_LOCAL 1', '  LOAD_LOCAL 0', '  STORE_UPVALUE 0 0'] + f1 + ['  LOAD_LOCAL 1', '  RET', '.end']
+        t += ['.function pass 1 2 0'] + f2 + ['  LOAD_LOCAL 0', '  RET', '.end']
+        return '\n'.join(t) + '\n'
+
+
 # ------------------------------------------------------------------------------------------------ running
 def compile_nvm(b, src, out):
     rc, o, e = vlib.sh([b.bin('nano_virt'), src, '--emit-nvm', '-o', out], timeout=30, cwd=b.root)
@@ -372,13 +471,17 @@ class Runner:
         self.unsupported = collections.Counter()
 
     def one(self, name, src_text, asan=False, max_steps=20000):
-        """compile + trace + model.  -> dict"""
+        """compile + trace + model.  -> dict.  Text starting with '.' is NanoISA assembly, anything else nano source."""
         h = hashlib.sha1(src_text.encode()).hexdigest()[:12]
-        src = os.path.join(SCR, '%s_%s.nano' % (name, h)); nvm = src[:-5] + '.nvm'
-        open(src, 'w').write(src_text)
-        ok, msg = compile_nvm(self.b, src, nvm)
-        if not ok:
-            return dict(name=name, status='nocompile', msg=msg, src=src)
+        if src_text.lstrip().startswith('.'):
+            src = nvm = os.path.join(SCR, '%s_%s.asm' % (name, h))
+            open(src, 'w').write(src_text)
+        else:
+            src = os.path.join(SCR, '%s_%s.nano' % (name, h)); nvm = src[:-5] + '.nvm'
+            open(src, 'w').write(src_text)
+            ok, msg = compile_nvm(self.b, src, nvm)
+            if not ok:
+                return dict(name=name, status='nocompile', msg=msg, src=src)
         rc, o, e = run_probe(self.probe_asan if asan else self.probe, nvm, max_steps)
         res = dict(name=name, status='ran', rc=rc, src=src, nvm=nvm, stderr=e[-1500:])
         steps, vl, el, xl, dl = parse_trace(o)
@@ -403,7 +506,7 @@ def judge(ck, R, res, src_text, kind):
     R.stats[res['status']] += 1
     if res['status'] == 'nocompile':
         return False
-    rep = dict(program=src_text, kind=kind, name=name)
+    rep = dict(program=src_text, source_kind=kind, name=name)
     if res['status'] == 'crash':
         ck.fail('c14:crash:' + name, 'heap_trace died (rc=%s) on %s' % (res['rc'], name), dict(rep, stderr=res['stderr'], engine='heap_trace'))
         return True
@@ -445,12 +548,14 @@ def churn_check(ck, R):
     """live objects after k iterations must not depend on k (exact families); leaking families are findings."""
     ks = (3, 12, 40) if not ck.thorough else (3, 12, 40, 200)
     rows = {}
+    leak_ops = {}
     for fam, (body, exact) in CHURN.items():
         lives = []
         for k in ks:
             src = churn_program(body, k, fam)
             res = R.one('churn_%s_%d' % (fam, k), src, max_steps=200000)
             judge(ck, R, res, src, 'churn:' + fam)
+            leak_ops.setdefault(fam, set()).update(op for (_, op, _) in res.get('leaks', []))
             if res['status'] != 'ran' or not res['steps'] or res['steps'][-2].live is None:
                 lives.append(None); continue
             # state before DESTROY (after main returned)
@@ -462,8 +567,13 @@ def churn_check(ck, R):
             ck.fail('c14:churn:%s:norun' % fam, 'churn program %s did not run' % fam, dict(program=churn_program(body, ks[0], fam)))
             continue
         if len(set(lives)) != 1:
-            ck.fail('c14:churn:' + fam, 'live objects after the loop grow with the iteration count: %s for k=%s' % (lives, list(ks)),
-                    dict(program=churn_program(body, ks[1], fam), k=list(ks), live=lives, engine='heap_trace'))
+            if not leak_ops.get(fam):
+                # growth that no forgotten reference explains (e.g. a reference cycle)
+                ck.fail('c14:churn:' + fam, 'live objects after the loop grow with the iteration count: %s for k=%s' % (lives, list(ks)),
+                        dict(program=churn_program(body, ks[1], fam), k=list(ks), live=lives, engine='heap_trace'))
+            else:
+                ck.note('churn family %s grows %s for k=%s: explained by the forgotten references at %s (reported under c14:leak:<op>)'
+                        % (fam, lives, list(ks), sorted(leak_ops[fam])))
         elif not exact:
             ck.note('churn family %s expected to leak but did not: %s' % (fam, lives))
     ck.extra['churn_live_after_loop'] = {f: dict(k=list(ks), live=v) for f, v in rows.items()}
@@ -471,11 +581,12 @@ def churn_check(ck, R):
 
 def run(ck):
     R = Runner(ck)
+    ck.gen(['gen_churn14'])
     proved = ck.prove()
     progs = []
     # 1. corpus first
-    for p in sorted(glob.glob(os.path.join(CORPUS, '*.nano'))):
-        progs.append(('corpus_' + os.path.basename(p)[:-5], open(p).read(), 'corpus'))
+    for p in sorted(glob.glob(os.path.join(CORPUS, '*.nano')) + glob.glob(os.path.join(CORPUS, '*.asm'))):
+        progs.append(('corpus_' + os.path.splitext(os.path.basename(p))[0], open(p).read(), 'corpus'))
     # 2. generated, aliasing-biased; two thirds without the constructs that are known to leak
     n = 900 if ck.thorough else 150
     feats = collections.Counter()
@@ -483,6 +594,11 @@ def run(ck):
         g = Gen(ck.rng, leaky=(i % 3 == 2))
         progs.append(('gen%04d' % i, g.program(), 'gen-leaky' if g.leaky else 'gen'))
         feats.update(g.feat)
+    na = 600 if ck.thorough else 120
+    for i in range(na):
+        g = AsmGen(ck.rng, leaky=(i % 3 == 2))
+        progs.append(('asm%04d' % i, g.program(), 'asm-leaky' if g.leaky else 'asm'))
+        feats.update({'asm:' + k: v for k, v in g.feat.items()})
     asan_every = 4
     def work(t):
         idx, (name, src, kind) = t
